@@ -10,9 +10,10 @@ Model of certificate revocation and CRL building in `internal/builtin/logical/pk
 * every request is a *program*: the list of its effective storage writes (`Step`s) in the order the code issues
   them; a fault or a crash cuts the program after a prefix.  The order in which the issuers' CRLs are written
   is Go map-iteration order, so programs take the orders (`o1` complete phase, `o2` delta phase) as inputs;
-* a complete rebuild writes, per live issuer, the complete CRL with the issuer's next CRL number `n`, persists
-  the counters (`crls/config`), then writes a delta CRL numbered `n+1` and persists the counters again
-  (`buildAnyCRLs` → `rebuildDeltaCRLsHoldingLock`): complete CRLs of one issuer are numbered n, n+2, n+4, …;
+* a complete rebuild, per live issuer, persists the advanced CRL number (`crls/config`) and then writes the complete
+  CRL with the issuer's previous next number `n`; after all issuers it persists the cleaned-up counters, then does
+  the same for the delta CRLs numbered `n+1` (`buildAnyCRLs` → `rebuildDeltaCRLsHoldingLock`): complete CRLs of
+  one issuer are numbered n, n+2, n+4, …;
 * `log` is a ghost history of every CRL ever written (newest first) — "every complete CRL built afterwards".
 Time is a model input: `now` advances only by `tick`.  Delta WAL / unified CRLs are outside the model
 (`enable_delta` stays off: every delta CRL is empty).
@@ -138,14 +139,29 @@ def staleDeletes (s : St) : List Step :=
     (if s.crls.any (fun p => p.1 == i) then [Step.delCRL i] else []) ++
     (if i ∈ s.deltas then [Step.delDelta i] else [])
 
+/-- `crls/config` as persisted while a phase of a rebuild is under way (`base` = 0 complete phase, 1 delta phase;
+    `done` = the issuers whose CRL number has been advanced in this phase).  In the complete phase the entries of
+    deleted issuers are still there and an issuer without a CRL id shows up once its turn has come. -/
+def countersAt (s : St) (base : Nat) (done : List Nat) (complete : Bool) : List (Nat × Nat) :=
+  (if complete then s.counters.filter (fun p => !(p.1 ∈ s.issuers)) else []) ++
+  (s.issuers.filter (fun i => i ∈ done || !complete || (s.counters.lookup i).isSome)).map
+    fun i => (i, counter s i + base + (if i ∈ done then 1 else 0))
+
+/-- one phase of a rebuild: per issuer, FIRST persist the advanced CRL number (`kOf`), THEN write the CRL signed
+    with the old one (`mk`) — since the repair of finding F17 an interruption skips a number, never reuses one -/
+def phaseSteps (mk : Nat → Step) (kOf : List Nat → Step) : List Nat → List Nat → List Step
+  | _, [] => []
+  | done, a :: l => kOf (a :: done) :: mk a :: phaseSteps mk kOf (a :: done) l
+
 /-- `crlBuilder.rebuild(sc, forceNew)` = `buildAnyCRLs(complete)` followed by the delta rebuild -/
 def rebuildSteps (s : St) (forceNew : Bool) (o1 o2 : List Nat) : List Step :=
   if s.cfg.disable && !forceNew then [] else
-  ((o1.filter (· ∈ s.issuers)).map fun i =>
-      Step.putCRL i (counter s i) (if s.cfg.disable then [] else crlSerials s i) s.cfg.disable)
+  phaseSteps (fun i => Step.putCRL i (counter s i) (if s.cfg.disable then [] else crlSerials s i) s.cfg.disable)
+      (fun done => Step.putCounters (countersAt s 0 done true)) [] (o1.filter (· ∈ s.issuers))
   ++ staleDeletes s
   ++ [Step.putCounters (s.issuers.map fun i => (i, counter s i + 1))]
-  ++ ((o2.filter (· ∈ s.issuers)).map fun i => Step.putDelta i (counter s i + 1))
+  ++ phaseSteps (fun i => Step.putDelta i (counter s i + 1))
+      (fun done => Step.putCounters (countersAt s 1 done false)) [] (o2.filter (· ∈ s.issuers))
   ++ [Step.putCounters (s.issuers.map fun i => (i, counter s i + 2))]
 
 inductive Res where
